@@ -214,36 +214,39 @@ func nodeAtoms(thorough bool) []atom {
 	return out
 }
 
-// contexts in which every atom is placed
-func placements(a atom) []struct {
+// contexts in which every atom is placed; fn is the function called with the
+// atom as an argument ("vm" when the atom is not an argument of a function)
+type placement struct {
+	fn   string
 	desc string
 	node *pb.NodeProto
-} {
-	type pl = struct {
-		desc string
-		node *pb.NodeProto
-	}
+}
+
+func placements(a atom) []placement {
 	one := litNode(&pb.LiteralNodeProto{Value: &pb.LiteralNodeProto_IntValue{IntValue: 1}})
 	n := a.node
-	out := []pl{
-		{a.desc, n},
-		{"(count " + a.desc + ")", callProto(symProto("count"), n)},
-		{"(find " + a.desc + ")", callProto(symProto("find"), n)},
-		{"(find-feature " + a.desc + ")", callProto(symProto("find-feature"), n)},
-		{"(pair 1 " + a.desc + ")", callProto(symProto("pair"), one, n)},
-		{"(" + a.desc + " 1)", callProto(n, one)},
-		{"{x -> " + a.desc + "}", &pb.NodeProto{Node: &pb.NodeProto_Lambda_{Lambda_: &pb.LambdaNodeProto{Args: []string{"x"}, Node: n}}}},
-		{"(map ints {x -> " + a.desc + "})", callProto(symProto("map"), intsProto(), &pb.NodeProto{Node: &pb.NodeProto_Lambda_{Lambda_: &pb.LambdaNodeProto{Args: []string{"x"}, Node: n}}})},
-		{"(map ints " + a.desc + ")", callProto(symProto("map"), intsProto(), n)},
-		{"(to-geojson " + a.desc + ")", callProto(symProto("to-geojson"), n)},
-		{"(snap-area-edges " + a.desc + " [#highway] 10.0)", callProto(symProto("snap-area-edges"), n, mk("q", eQ(qHighway)).p, mk("f", eF(10)).p)},
-		{"(matches /n/5 " + a.desc + ")", callProto(symProto("matches"), mk("id", eID(idN5)).p, n)},
+	lambda := func(body *pb.NodeProto) *pb.NodeProto {
+		return &pb.NodeProto{Node: &pb.NodeProto_Lambda_{Lambda_: &pb.LambdaNodeProto{Args: []string{"x"}, Node: body}}}
+	}
+	out := []placement{
+		{"vm", a.desc, n},
+		{"count", "(count " + a.desc + ")", callProto(symProto("count"), n)},
+		{"find", "(find " + a.desc + ")", callProto(symProto("find"), n)},
+		{"find-feature", "(find-feature " + a.desc + ")", callProto(symProto("find-feature"), n)},
+		{"pair", "(pair 1 " + a.desc + ")", callProto(symProto("pair"), one, n)},
+		{"vm", "(" + a.desc + " 1)", callProto(n, one)},
+		{"vm", "{x -> " + a.desc + "}", lambda(n)},
+		{"map", "(map ints {x -> " + a.desc + "})", callProto(symProto("map"), intsProto(), lambda(n))},
+		{"map", "(map ints " + a.desc + ")", callProto(symProto("map"), intsProto(), n)},
+		{"to-geojson", "(to-geojson " + a.desc + ")", callProto(symProto("to-geojson"), n)},
+		{"snap-area-edges", "(snap-area-edges " + a.desc + " [#highway] 10.0)", callProto(symProto("snap-area-edges"), n, mk("q", eQ(qHighway)).p, mk("f", eF(10)).p)},
+		{"matches", "(matches /n/5 " + a.desc + ")", callProto(symProto("matches"), mk("id", eID(idN5)).p, n)},
 	}
 	if a.lit != nil {
 		one := &pb.LiteralNodeProto{Value: &pb.LiteralNodeProto_IntValue{IntValue: 1}}
 		out = append(out,
-			pl{"collection{1: " + a.desc + "}", litNode(&pb.LiteralNodeProto{Value: &pb.LiteralNodeProto_CollectionValue{CollectionValue: &pb.CollectionProto{Keys: []*pb.LiteralNodeProto{one}, Values: []*pb.LiteralNodeProto{a.lit}}}})},
-			pl{"(count collection{" + a.desc + ": 1})", callProto(symProto("count"), litNode(&pb.LiteralNodeProto{Value: &pb.LiteralNodeProto_CollectionValue{CollectionValue: &pb.CollectionProto{Keys: []*pb.LiteralNodeProto{a.lit}, Values: []*pb.LiteralNodeProto{one}}}}))},
+			placement{"vm", "collection{1: " + a.desc + "}", litNode(&pb.LiteralNodeProto{Value: &pb.LiteralNodeProto_CollectionValue{CollectionValue: &pb.CollectionProto{Keys: []*pb.LiteralNodeProto{one}, Values: []*pb.LiteralNodeProto{a.lit}}}})},
+			placement{"count", "(count collection{" + a.desc + ": 1})", callProto(symProto("count"), litNode(&pb.LiteralNodeProto{Value: &pb.LiteralNodeProto_CollectionValue{CollectionValue: &pb.CollectionProto{Keys: []*pb.LiteralNodeProto{a.lit}, Values: []*pb.LiteralNodeProto{one}}}}))},
 		)
 	}
 	return out
@@ -256,7 +259,7 @@ func protoCases(thorough bool) []caseT {
 	atoms := append(literalAtoms(thorough), nodeAtoms(thorough)...)
 	for _, a := range atoms {
 		for _, p := range placements(a) {
-			out = append(out, caseT{part: "c", name: "proto(" + a.kind + ")", what: p.desc, req: request(p.node)})
+			out = append(out, caseT{part: "c", name: p.fn, what: p.desc, req: request(p.node)})
 		}
 	}
 	// request-level
@@ -275,7 +278,7 @@ func protoCases(thorough bool) []caseT {
 		{"request{root {}}", &pb.EvaluateRequestProto{Request: one, Version: b6.ApiVersion, Root: &pb.FeatureIDProto{}}},
 	}
 	for _, r := range reqs {
-		out = append(out, caseT{part: "c", name: "proto(request)", what: r.desc, req: r.r})
+		out = append(out, caseT{part: "c", name: "vm", what: r.desc, req: r.r})
 	}
 	return out
 }
